@@ -425,9 +425,15 @@ func (u *clientUpdater) updateService(ctx context.Context, service ServiceDefini
 		return fmt.Errorf("failed to get presentations from discovery service (id=%s): %w", service.ID, err)
 	}
 	// check testSeed in store, wipe if it's different. Done by the store for transaction safety.
-	err = u.store.wipeOnSeedChange(service.ID, seed)
+	wiped, err := u.store.wipeOnSeedChange(service.ID, seed)
 	if err != nil {
 		return fmt.Errorf("failed to wipe on testSeed change (service=%s, testSeed=%s): %w", service.ID, seed, err)
+	}
+	if wiped {
+		// The local copy was wiped and its timestamp was reset to 0, but the response only contains the presentations
+		// after the timestamp of the previous list. Applying it (and storing the server's timestamp) would skip
+		// the earlier presentations of the new list forever, so start over from 0 on the next update.
+		return nil
 	}
 	for _, presentation := range presentations {
 		// Check if the presentation already exists
